@@ -65,6 +65,21 @@ variable {X : Type}
 def HeurFeasible (feasible : X → Prop) (obj : X → ℝ) (wc tol : ℝ) (x : X) : Prop :=
   feasible x ∧ obj x ≥ wc - tol
 
+/-- **the front-end does not touch the flow**: whichever back-end name is asked for, installed or not, licensed or not,
+the calls, the solve the multipliers come from and the solve the instance comes from are those of `_solve_with_wrapper`
+(the flow stream routes two programs in five through `PEP.solve` with every spelling of the names and an absent MOSEK) -/
+theorem front_end_transparent (name : String) (installed licensed : String → Bool) (h : Heur) (m : Mode) :
+    (solveFront name installed licensed h m).2 = solveFlow h m := rfl
+
+/-- a back-end that is not installed, or whose licence check fails, is replaced by cvxpy; an installed and licensed one is kept -/
+theorem fallback_is_cvxpy (name : String) (installed licensed : String → Bool)
+    (h : installed name.toLower = false ∨ licensed name.toLower = false) :
+    resolveWrapper name installed licensed = "cvxpy" := by
+  unfold resolveWrapper
+  rcases h with h | h
+  · simp [h]
+  · by_cases hi : installed name.toLower = true <;> simp [hi, h]
+
 /-- **the returned instance still satisfies every original constraint** -/
 theorem heuristic_feasible (feasible : X → Prop) (obj : X → ℝ) (wc tol : ℝ) (x : X)
     (h : HeurFeasible feasible obj wc tol x) : feasible x := h.1
